@@ -215,8 +215,12 @@ def judge(case, pre, r, faults, out, step, second_party=None, retry=True):
                         % (r.exc, _fmt(dest_now), _fmt(want_dest)), **sig)
     if published:
         # B7: failure after publication: the new content must be in place and complete ...
+        exc_errno = getattr(r.exc, 'errno', None)
         named = [f for f in faults if (f[0] in ('open', 'chmod', 'raw.write', 'fsync', 'raw.close', 'rename', 'link')
-                                        or f[0].startswith('extra:')) and f[2][0] in ('errno', 'disk-full')]
+                                        or f[0].startswith('extra:'))
+                 and ((f[2][0] == 'errno' and exc_errno == f[2][1]) or (f[2][0] == 'disk-full' and exc_errno == errno.ENOSPC))]
+        # (only an error the caller actually got: a full disk does not fail a zero-byte write, and the
+        # exception may come from the clean-up fault of a pair)
         if named:
             # ... and the failure must not be one of the steps C05 names: an error there means the save did
             # not complete, so the destination must be what it was (only clean-up after the commit may fail late)
